@@ -58,9 +58,13 @@ type wStep struct {
 	Expect     *[][]wCell `json:"expect,omitempty"` // expected answer (multiset); nil = only "must complete"
 	Txn        int        `json:"txn,omitempty"`    // 0 = auto-commit; n>0 = explicit transaction handle n
 	End        string     `json:"end,omitempty"`    // "commit" | "abort" of Txn
+	Reopen     string     `json:"reopen,omitempty"` // "clean" (Shutdown) | "crash" (close files without flush); needs "file": true
+	Audit      string     `json:"audit,omitempty"`  // table name: every index must agree with the heap
+	AuditKinds []string   `json:"audit_kinds,omitempty"`
 }
 
 type sqlWitness struct {
+	File   bool     `json:"file,omitempty"`
 	MemKB  int      `json:"memKB"`
 	Tables []wTable `json:"tables"`
 	Steps  []wStep  `json:"steps"`
@@ -77,7 +81,8 @@ func runSQLWitness(env *core.Env, raw json.RawMessage) *core.CaseResult {
 	if w.MemKB == 0 {
 		w.MemKB = 1024
 	}
-	db := sqlx.Open(env.TmpDir+"/witness", w.MemKB, sqlx.Options{})
+	sqlx.RemoveFiles(env.TmpDir + "/witness")
+	db := sqlx.Open(env.TmpDir+"/witness", w.MemKB, sqlx.Options{File: w.File})
 	for _, t := range w.Tables {
 		if t.Via == "api" {
 			db.CreateTableAPI(t.Name, t.Cols, t.Idx)
@@ -100,6 +105,34 @@ func runSQLWitness(env *core.Env, raw json.RawMessage) *core.CaseResult {
 	for i, st := range w.Steps {
 		var r sqlx.Result
 		desc := st.SQL
+		if st.Reopen != "" {
+			msg, panicked := guarded(func() {
+				if st.Reopen == "clean" {
+					db.S.Shutdown()
+				} else {
+					db.S.ShutdownForTescase()
+				}
+				db = sqlx.Open(env.TmpDir+"/witness", w.MemKB, sqlx.Options{File: true})
+			})
+			if panicked {
+				res.Violate("restart-panic", nil, map[string]any{"step": i}, "step %d: reopen (%s) panicked: %s", i, st.Reopen, msg)
+				return res
+			}
+			continue
+		}
+		if st.Audit != "" {
+			var problems []string
+			msg, panicked := guarded(func() { problems, _, _ = db.IndexAudit(st.Audit, st.AuditKinds, nil, nil) })
+			if panicked {
+				res.Violate("audit-panic", nil, map[string]any{"step": i}, "step %d: index audit panicked: %s", i, msg)
+				return res
+			}
+			if len(problems) > 0 {
+				res.Violate("index-disagrees-with-table", nil, map[string]any{"step": i}, "step %d: %s", i, strings.Join(problems, "; "))
+				return res
+			}
+			continue
+		}
 		msg, panicked := guarded(func() {
 			switch {
 			case st.Stats:
